@@ -20,7 +20,7 @@ package align
 //@ pure func c19b_ownrow(c *seqbag, r int) bool = fresh(row(c, r).sequence) && allocated(row(c, r).sequence)
 
 //@ func (*align).Clone
-//@   props C19
+//@   props C19 C01
 //@   requires wfa(a)
 //@   ensures err == nil && c != nil && fresh(c) && wfa(c) && fresh(c.seqs) && fresh(c.seqmap)
 //@   ensures nrows(c) == nrows(a) && c.length == a.length && c.alphabet == a.alphabet && c.ignoreidentical == c19b_policy(a.ignoreidentical)
@@ -44,7 +44,7 @@ package align
 // residues; the slice it receives is only read. `inline`: call sites do not use this contract, the
 // literal is inlined where IterateAll calls it (see Clone above).
 //@ func (*align).Clone$1
-//@   props C19
+//@   props C19 C01
 //@   inline
 //@   requires c != nil && wfa(c)
 //@   ensures wfa(c) && result == (err != nil)
@@ -55,7 +55,7 @@ package align
 
 // CloneSeqBag: the same for a plain sequence bag (rows of any lengths)
 //@ func (*seqbag).CloneSeqBag
-//@   props C19
+//@   props C19 C01
 //@   requires wf(sb)
 //@   ensures result1 == nil && result0 != nil && fresh(result0) && wf(result0) && fresh(result0.seqs) && fresh(result0.seqmap) && !isalign(result0)
 //@   ensures nrows(result0) == nrows(sb) && result0.alphabet == sb.alphabet && result0.ignoreidentical == c19b_policy(sb.ignoreidentical)
@@ -73,7 +73,7 @@ package align
 //@     decreases nrows(sb) - $i
 
 //@ func (*seqbag).CloneSeqBag$1
-//@   props C19
+//@   props C19 C01
 //@   inline
 //@   requires c != nil && wf(c)
 //@   ensures wf(c) && result == (err != nil) && err == nil
